@@ -122,5 +122,8 @@ def stored(prop):
             with open(p, encoding="utf-8") as f:
                 touched = {x[len(SRC) + 1:] for x in re.findall(r"^\+\+\+ b/(\S+)", f.read(), re.M) if x.startswith(SRC + "/")}
             if touched & mine:
-                out.append((f"benign/{name} (shared file)", "silent", p, 0))
+                # (a recorded "cannot decide" holds for every property that reads the restructured function)
+                e = os.path.join(d, name, "expected_rc")
+                exp = int(open(e).read().strip() or 0) if os.path.exists(e) else 0
+                out.append((f"benign/{name} (shared file)", "silent", p, exp))
     return out
